@@ -346,7 +346,7 @@ func serverResolves(addr string) bool {
 func runConfig(seed uint64, n int, tier string, out string, replay string) {
 	rnd := hx.NewRand(seed)
 	sum := hx.NewSummary("config", seed)
-	sum.Rule = "one case = one generated configuration (0-2 compress profiles, 1-2 caches, 1-3 upstreams, 1-4 locations, 1-3 servers; names drawn from small pools so duplicates occur); 45% valid (of which 15% then get exactly one malformed upstream field: health path, policy or an address — wrong scheme, or right scheme but not parseable as a URL); the others carry 1-3 defects: each kind of dangling reference (upstream on any location incl. later ones, location / cache / compress on a server) and each kind of malformed field (durations, sizes, regexps, addresses, url paths, divide pairs, hostnames, policy, names too long or empty, empty required lists); Validate's verdict is compared, accepted configurations are applied through the five Reset functions and every server is probed; every accepted configuration also goes through Write/Read (YAML file client) with every remark field set to a string from a pool of 35 that need quoting (multi-line with and without final newline, leading/trailing blanks, YAML keywords, numbers, indicators, unicode, CRLF) and is compared field by field, twice in a row through the same client (second document: other remarks, sometimes fewer sections); a Write or Read error on an accepted configuration is reported too; non-trivial = rejected for a reference error or accepted with >= 2 servers; distinct by configuration"
+	sum.Rule = "one case = one generated configuration (0-2 compress profiles, 1-2 caches, 1-3 upstreams, 1-4 locations, 1-3 servers; names drawn from small pools so duplicates occur); 45% valid (of which 15% then get exactly one malformed upstream field: health path, policy or an address — wrong scheme, or right scheme but not parseable as a URL); the others carry 1-3 defects: each kind of dangling reference (upstream on any location incl. later ones, location / cache / compress on a server) and each kind of malformed field (durations, sizes, regexps, addresses, url paths, divide pairs, hostnames, policy, names too long or empty, empty required lists); Validate's verdict is compared, accepted configurations are applied through the five Reset functions and every server is probed; every accepted configuration also goes through Write/Read (YAML file client) with every remark field set to a string from a pool of 35 that need quoting (multi-line with and without final newline, leading/trailing blanks, YAML keywords, numbers, indicators, unicode, CRLF) and is compared field by field (directly, and again through the admin GET /config handler with the upstreams live), twice in a row through the same client (second document: other remarks, sometimes fewer sections); a Write or Read error on an accepted configuration is reported too; non-trivial = rejected for a reference error or accepted with >= 2 servers; distinct by configuration"
 	header := "From Coq Require Import List NArith ZArith.\nImport ListNotations.\nFrom Pike Require Import Base.Bytes Model.Config Corr.ConfigCorr.\n"
 	w := hx.NewCaseWriter(out, "config", header, "list cf_case", "check_cases", 60, sum)
 	distinct := hx.NewDistinct()
@@ -439,6 +439,24 @@ func runConfig(seed uint64, n int, tier string, out string, replay string) {
 								break
 							}
 							sum.Count("yaml-roundtrip")
+							// the same saved document read through the admin API (GET /config, which decorates the
+							// live upstreams with their health): apart from the health flag it is the saved configuration
+							if viaAdmin := adminReadConfig(); viaAdmin != nil {
+								for ui := range viaAdmin.Upstreams {
+									for si := range viaAdmin.Upstreams[ui].Servers {
+										viaAdmin.Upstreams[ui].Servers[si].Healthy = false
+									}
+								}
+								viaAdmin.YAML = ""
+								if !strings.HasPrefix(viaAdmin.Version, "<admin") {
+									viaAdmin.Version = ""
+								}
+								if !reflect.DeepEqual(normalizeCfg(viaAdmin), normalizeCfg(want)) {
+									fail(fmt.Sprintf("admin-read-differs-from-saved (save %d)", round+1), nil)
+									break
+								}
+								sum.Count("admin-roundtrip")
+							}
 						}
 					}
 					_ = config.Close()
@@ -456,6 +474,34 @@ func runConfig(seed uint64, n int, tier string, out string, replay string) {
 	w.Flush()
 	sum.DistinctNontrivial = distinct.Len()
 	sum.Write(out)
+}
+
+const cfgAdminAddr = "127.0.0.1:39177"
+
+var cfgAdminOnce sync.Once
+
+// adminReadConfig: GET /config on an admin server without login; nil when the server cannot be reached
+func adminReadConfig() *config.PikeConfig {
+	cfgAdminOnce.Do(func() {
+		go func() { _ = server.StartAdminServer(server.AdminServerConfig{Addr: cfgAdminAddr}) }()
+		for i := 0; i < 100; i++ {
+			if c, err := net.DialTimeout("tcp", cfgAdminAddr, 100*time.Millisecond); err == nil {
+				c.Close()
+				break
+			}
+			time.Sleep(20 * time.Millisecond)
+		}
+	})
+	resp, err := http.Get("http://" + cfgAdminAddr + "/config")
+	if err != nil {
+		return nil
+	}
+	defer resp.Body.Close()
+	var c config.PikeConfig
+	if resp.StatusCode != 200 || json.NewDecoder(resp.Body).Decode(&c) != nil {
+		return &config.PikeConfig{Version: fmt.Sprintf("<admin answered %d or an undecodable body>", resp.StatusCode)} // differs from every saved configuration
+	}
+	return &c
 }
 
 func normalizeCfg(c *config.PikeConfig) *config.PikeConfig {
@@ -620,18 +666,24 @@ func runReconfChild(seed uint64, n int, tier string, out string, replay string) 
 func runReconf(seed uint64, n int, tier string, out string, replay string) {
 	rnd := hx.NewRand(seed)
 	sum := hx.NewSummary("reconf", seed)
-	sum.Rule = "one case = a sequence of 2-5 valid configurations (sections added / removed / modified, optional fields set and unset: compress levels, min length, filter, upstream options, location constraints; profile named bestCompression overridden and dropped) applied through the five Reset functions in main.update's order to one process, observed through the exported getters (server bindings and thresholds, upstream options, dispatcher presence and identity, compress levels per profile name, routing probes over 3 hosts x 3 URIs x location names; Go-side additionally (caches c1 and c2 share one persistent store) whether a response cached through each surviving store-backed cache reaches the store, every upstream's full option set and server pool, and for every routing probe the chosen location's rewrites, added headers/query, timeout and the rewritten path) ; at the start four really listening servers are reduced to one by a single update and, 12 s later, the three removed addresses must refuse connections while the survivor accepts) and compared with a FRESH child process that applies only the last configuration; non-trivial = the last configuration differs from the previous one in some section; distinct by the sequence"
+	sum.Rule = "one case = a sequence of 2-5 valid configurations (sections added / removed / modified, optional fields set and unset: compress levels, min length, filter, upstream options, location constraints; profile named bestCompression overridden and dropped) applied through the five Reset functions in main.update's order to one process, observed through the exported getters (server bindings and thresholds, upstream options, dispatcher presence and identity, compress levels per profile name, routing probes over 3 hosts x 3 URIs x location names; Go-side additionally (caches c1 and c2 share one persistent store) whether a response cached through each surviving store-backed cache reaches the store, every upstream's full option set and server pool, and for every routing probe the chosen location's rewrites, added headers/query, timeout and the rewritten path) ; at the start the file watcher gets two saves in quick succession (the second while the first reload is being applied: the last one must be reloaded) and four really listening servers are reduced to one by a single update and, 12 s later, the three removed addresses must refuse connections while the survivor accepts) and compared with a FRESH child process that applies only the last configuration; non-trivial = the last configuration differs from the previous one in some section; distinct by the sequence"
 	header := "From Coq Require Import List NArith ZArith.\nImport ListNotations.\nFrom Pike Require Import Base.Bytes Model.Config Corr.ConfigCorr.\n"
 	w := hx.NewCaseWriter(out, "reconf", header, "list rc_case", "check_reconf", 10, sum)
 	distinct := hx.NewDistinct()
 	self, _ := os.Executable()
 	registerFakeStores()
+	tmpdir, _ := os.MkdirTemp("", "pikeverif-reconf-")
+	defer os.RemoveAll(tmpdir)
+	if n >= 40 {
+		if v := savesInQuickSuccession(tmpdir); v != nil {
+			sum.ImplViolations = append(sum.ImplViolations, v)
+		}
+		sum.Count("watch-scenario")
+	}
 	finishListeners := func() {}
 	if n >= 40 { // the listener scenario takes 12 s: only in runs of C16's size
 		finishListeners = removedServersStopListening(sum)
 	}
-	tmpdir, _ := os.MkdirTemp("", "pikeverif-reconf-")
-	defer os.RemoveAll(tmpdir)
 	for i := 0; i < n; i++ {
 		k := 2 + rnd.Intn(4)
 		var seq []*genCfg
@@ -816,6 +868,57 @@ func runReconf(seed uint64, n int, tier string, out string, replay string) {
 	w.Flush()
 	sum.DistinctNontrivial = distinct.Len()
 	sum.Write(out)
+}
+
+// savesInQuickSuccession: the file client's watcher with a reload callback that takes 300 ms (reading the
+// file first, like main.update): a second save that lands while the first reload is still being applied must
+// be picked up too — the running instance ends up with the LAST saved configuration
+func savesInQuickSuccession(tmpdir string) map[string]interface{} {
+	file := filepath.Join(tmpdir, "watched.yml")
+	if err := config.InitDefaultClient(file); err != nil {
+		return nil
+	}
+	defer func() { _ = config.Close() }()
+	mk := func(remark string) *config.PikeConfig {
+		return &config.PikeConfig{Caches: []config.CacheConfig{{Name: "wc", Size: 10, HitForPass: "5m", Remark: remark}}}
+	}
+	if err := config.Write(mk("initial")); err != nil {
+		return nil
+	}
+	seen := make(chan string, 64)
+	go config.Watch(func() {
+		c, err := config.Read()
+		got := "<unreadable>"
+		if err == nil && len(c.Caches) == 1 {
+			got = c.Caches[0].Remark
+		}
+		seen <- got
+		time.Sleep(300 * time.Millisecond) // applying the configuration takes a while (health checks)
+	})
+	time.Sleep(150 * time.Millisecond) // the watcher is armed
+	_ = config.Write(mk("first"))
+	waitFor := func(want string, d time.Duration) bool {
+		deadline := time.After(d)
+		for {
+			select {
+			case got := <-seen:
+				if got == want {
+					return true
+				}
+			case <-deadline:
+				return false
+			}
+		}
+	}
+	if !waitFor("first", 3*time.Second) {
+		return nil // no notification at all on this file system: nothing to judge
+	}
+	time.Sleep(50 * time.Millisecond) // inside the 300 ms during which the first reload is applied
+	_ = config.Write(mk("second"))
+	if !waitFor("second", 4*time.Second) {
+		return map[string]interface{}{"property": "C16", "kind": "last-configuration-update-lost", "what": "a save that landed while the previous reload was being applied was never reloaded: the instance keeps the earlier configuration although the file holds the final one"}
+	}
+	return nil
 }
 
 // removedServersStopListening: four servers really listening on local ports; one update removes three
